@@ -314,6 +314,7 @@ class Libs:
         self._build()
 
     def bind(self, interp):
+        from . import tensor_api          # installs the operator table of abstract tensors
         self.interp = interp
         ArgList.libs = self
         HOOKS['inplace'] = self._inplace_hook
@@ -398,7 +399,7 @@ class Libs:
             'is_grad_enabled': self._is_grad_enabled, 'abs': self._nonlinear('abs'),
             'where': self._torch_where, 'sign': self._nonlinear('sign'), 'exp': self._nonlinear('exp'),
             'log': self._nonlinear('log'), 'clamp': self._nonlinear('clamp'), 'pow': self._pow,
-            'arange': self._torch_arange, 'remainder': self._torch_remainder, 'fmod': self._torch_remainder,
+            'finfo': self._torch_finfo, 'arange': self._torch_arange, 'remainder': self._torch_remainder, 'fmod': self._torch_remainder,
             'is_tensor': lambda x: isinstance(x, (DataT, Sym)) and getattr(x, 'lib', 'torch') == 'torch',
             'device': lambda s: Device(str(s)),
         })
@@ -479,7 +480,8 @@ class Libs:
             if name == 'args':
                 return obj.args
             raise AnalysisError('unknown-construct', 'exception attribute %s' % name)
-        if isinstance(obj, (AbstractWavelet, npz.NpzMapping, npz.FileHandle, ConstT, DType, Device)):
+        if isinstance(obj, (AbstractWavelet, npz.NpzMapping, npz.FileHandle, ConstT, DType, Device)) or \
+                type(obj).__name__ == 'FInfo':
             try:
                 return getattr(obj, name)
             except AttributeError:
@@ -920,6 +922,18 @@ class Libs:
     def _is_grad_enabled(self):
         self.interp.event('grad-mode-read')
         return self.grad_enabled and not self.interp.nograd
+
+    def _torch_finfo(self, dtype=None):
+        from . import nonlin
+        tag = dtype.tag if isinstance(dtype, DType) else 'default'
+        self.interp.event('dtype-dependent-constant', dtype=tag)
+
+        class FInfo:
+            eps = nonlin.Param('eps[%s]' % tag)
+            tiny = nonlin.Param('tiny[%s]' % tag)
+            max = nonlin.Param('max[%s]' % tag)
+            min = nonlin.Param('min[%s]' % tag)
+        return FInfo()
 
     def _torch_arange(self, *a, dtype=None, device=None, **k):
         return ConstT(np.arange(*[ConstT._v(x) for x in a]), device)
